@@ -376,6 +376,9 @@ def build_tables(m, silf_version=0x00030000):
          "Silf": build_silf(m, silf_version)}
     if m.get("boxes"):
         t["glyf"], t["loca"] = build_glyf_loca(m)
+    if m.get("nfeat"):
+        from . import feat
+        t["Feat"] = feat.feat_table([[0, 1, 2]] * m["nfeat"])
     return t
 
 
